@@ -206,20 +206,21 @@ PROPS["C05"] = dict(
 
 PROPS["C12"] = dict(
     level="proof",
-    verus=["c12_request", "c12_userinfo", "c12_domain", "c04_precedence"],
+    verus=["c12_request", "c12_userinfo", "c12_domain", "c04_precedence", "c12_offsets"],
     labels=["C12.", "C03.request.", "C04.check.unsupported"],
     kani=[KaniSet("src/request.rs", "c03_request.rs", [
         Harness("c03_request_classify", "C03.request.classify", "C", "every (type alias, scheme, party) of the 24-entry alias table x 9 schemes; string loops bounded by the longest literal (unwind 20, unwinding assertions on)"),
     ])],
-    trusted=["url_parser: scheme scan, serialisation, port/IPv6 handling, IDN/punycode, registrable-domain lookup (addr/PSL) - NOT under contract; under contract (unit c12_userinfo): where the userinfo ends (Parser::parse_userinfo) and where the host ends (the scanning loop of Parser::parse_host, R7 block lift)",
+    trusted=["url_parser: scheme characters (parse_scheme), port/IPv6 handling, IDN/punycode, percent-encoding, registrable-domain lookup (addr/PSL) - NOT under contract; under contract (unit c12_userinfo): where the userinfo ends (Parser::parse_userinfo, which only appends to the buffer) and where the host ends (the scanning loop of Parser::parse_host, R7 block lift); (unit c12_offsets) the three byte offsets of Hostname: Hostname::parse, Parser::parse_url, parse_with_scheme, after_double_slash, parse_non_special, Hostname::host_str / has_host and the Range slice; parse_host's tail (take/collect, write!) enters by contract: it appends the host's normal form and reports the buffer length",
+             "UTF-8 facts (axioms, unit c12_offsets): the encoding of a concatenation is the concatenation of the encodings; the encoding of a character prefix ends on a character boundary; in-place ASCII lower-casing changes no character's encoded length; a by-value `mut self` receiver is spelled as a named parameter (R1)",
              "the `Input` character iterator (a wrapper around str::Chars) is a trusted abstraction: next() yields the characters in order, clone() forks the position, next_utf8() also skips tab/newline; str::chars() materialised (R5); what is written to the serialisation buffer is not part of the contract",
              "inputs of fewer than 2^31 characters (parse_userinfo counts in i32) and fewer than usize::MAX/4 characters (byte counter of parse_host)",
              "registrable domain (unit c12_domain, DefaultResolver::get_host_domain): the public-suffix lookup of the addr crate is uninterpreted (a parsed name reports a root and a suffix that are texts at the end of the host); `x.unwrap_or_else(|| y)` with a pure closure rewritten to a match (R6)",
              "memchr::memchr = first occurrence (shim)"],
     assumptions=[],
     level_text="Verus proves the plumbing of Request::new and Request::preparsed: hostname = host of the parsed URL, third-party iff the registrable domains differ or the source is absent/unparseable, "
-               "scheme handed to classification = text before the first ':'; that the URL parser takes as host the text right after the LAST '@' before the first '/', '?' or '#' (or '\\' for special schemes) and ends it at the first ':' outside brackets, '/', '?', '#' (or '\\'); Kani proves the classification (websocket forcing, supported schemes) over the alias/scheme tables",
-    level_note="narrow: host extraction, IDN and public-suffix lookup are trusted (url_parser); panic-freedom of the URL scanner is not decided",
+               "scheme handed to classification = text before the first ':'; that the URL parser takes as host the text right after the LAST '@' before the first '/', '?' or '#' (or '\\' for special schemes) and ends it at the first ':' outside brackets, '/', '?', '#' (or '\\'); that every Hostname the scanner returns carries offsets that are ordered, in range and on character boundaries of the normalised URL, with the host's written normal form between host_start and host_end, so that host_str never slices out of range; Kani proves the classification (websocket forcing, supported schemes) over the alias/scheme tables",
+    level_note="IDN, percent-encoding and the public-suffix lookup are trusted (url_parser); panic-freedom is decided for the offset arithmetic and slices of the URL scanner, not for the idna / addr crates",
     design_ref="DESIGN.md section 4, C12",
 )
 
